@@ -19,7 +19,7 @@ IDENT_CALLS = {"to_vec", "to_owned", "clone", "into", "from", "as_ref", "as_slic
                "extend_from_slice", "copy_from_slice", "push", "extend", "into_iter", "iter", "cloned", "copied",
                "collect", "next", "get", "get_unchecked", "split_at", "ok", "unwrap_or", "unwrap_or_else", "map",
                "from_iter", "as_ptr", "from_raw_parts", "to_bytes", "from_utf8", "into_inner", "write_all", "concat",
-               "first", "last", "chunks", "by_ref", "take", "skip", "enumerate", "len", "is_empty", "new", "with_capacity",
+               "first", "last", "chunks", "split_first", "split_last", "split_at_checked", "strip_prefix", "get_mut", "by_ref", "take", "skip", "enumerate", "len", "is_empty", "new", "with_capacity",
                "reserve", "truncate", "resize", "set_len", "copy_nonoverlapping", "fast_copy", "and_then", "or_else",
                "as_deref", "to_string", "record_put", "record_get", "fetch_add", "elapsed", "hash", "insert", "log"}
 BYTES_TY = re.compile(r"Vec<u8>|\[u8\]|String|Cow<|Bytes|FastVec<u8>|Box<\[u8\]>")
@@ -38,6 +38,7 @@ class Flow:
         self.fx = fx
         self.depth = depth
         self._sum = {}
+        self._devirt = {}
 
     def kinds(self, fn, sources, sink_pred, level=0):
         """sources: iterable of locals. sink_pred(fn, loc, stmt, local) -> True when `local` is used as
@@ -112,9 +113,78 @@ class Flow:
         self._state = state
         return out, state
 
+    def _devirtualise(self, c, fn):
+        """for a call through `dyn Trait` whose receiver is a struct field: if every crate-wide
+        construction of that field stores one concrete crate type, return that type's method id"""
+        if self.fx.has(c["f"]) or not c["a"] or not c.get("loc"):
+            return None       # only body-less crate trait methods (virtual / unresolved calls)
+        from rules.sync import recv_field
+        fld = recv_field(fn, c["a"][0])
+        if not fld or "::" not in fld:
+            return None
+        fld = fld.rstrip("[]")
+        if fld in self._devirt:
+            ty = self._devirt[fld]
+        else:
+            adt, fname = fld.rsplit("::", 1)
+            types = set()
+            nsites = 0
+            needle = ("adt:" + adt + "::").encode()
+            with open(self.fx.path, "rb") as fh:
+                data = fh.read()
+            pos = 0
+            fids = set()
+            while True:
+                i = data.find(needle, pos)
+                if i < 0:
+                    break
+                ls = data.rfind(b"\n", 0, i) + 1
+                le = data.find(b"\n", i)
+                if data[ls:ls + 2] == b"F\t":
+                    fids.add(data[ls:ls + 3000].split(b"\t", 3)[2].decode())
+                pos = le + 1 if le > 0 else len(data)
+            for fid in fids:
+                cf = Fn(self.fx.raw(fid))
+                for loc, st in cf.iter_locs():
+                    if st[0] == "a" and st[2][0] == "agg" and isinstance(st[2][1], str) and \
+                            st[2][1][4:].rsplit("::", 1)[0] == adt and fname in st[2][3]:
+                        nsites += 1
+                        o = st[2][2][st[2][3].index(fname)]
+                        lo = op_local(o)
+                        found = set()
+                        if lo is not None:
+                            locs, sites = cf.backslice([lo], max_nodes=80)
+                            for loc2, kind2, pl2 in sites:
+                                ops = rv_operands(pl2[2]) if kind2 in ("assign", "store") else pl2["a"]
+                                for oo in ops:
+                                    if oo and oo[0] == "k" and isinstance(oo[2], str) and oo[2] in self.fx.adts:
+                                        found.add(oo[2])
+                                if kind2 == "assign" and pl2[2][0] == "agg" and isinstance(pl2[2][1], str) and pl2[2][1].startswith("adt:"):
+                                    t = pl2[2][1][4:].rsplit("::", 1)[0]
+                                    if t in self.fx.adts and t != adt:
+                                        found.add(t)
+                        types |= found if found else {"?"}
+            ty = next(iter(types)) if (len(types) == 1 and "?" not in types and nsites) else None
+            self._devirt[fld] = ty
+        if ty is None:
+            return None
+        meth = c["f"].rsplit("::", 1)[-1]
+        for imp in self.fx.impls:
+            if imp["self_ty"] == ty and imp.get("trait"):
+                for it in imp["items"]:
+                    if it.endswith("::" + meth):
+                        return it
+        return None
+
     def _callee_kind(self, c, l, fn, level):
         """'I' if the crate-local callee only copies the argument through, 'T' if it transforms,
         None if unknown/no bytes"""
+        target = c["f"]
+        if not self.fx.has(target) or not c.get("r", True):
+            dv = self._devirtualise(c, fn)
+            if dv:
+                target = dv
+                c = dict(c, f=dv, loc=True)
         if not c["loc"] or level >= self.depth or not self.fx.has(c["f"]):
             return None
         key = c["f"]
@@ -157,8 +227,8 @@ def compare(ctx, rule, label, store_k, load_k, wfn, rfn, match_stems=True):
     if "T" in load_k and "T" not in store_k:
         problems.append("the load path transforms the bytes (%s) but the store path stores them raw" % sorted(load_k["T"]))
     if match_stems and "T" in store_k and "T" in load_k:
-        ws, rs = {s for s in store_k["T"] if s}, {s for s in load_k["T"] if s}
-        if ws and rs and not (ws & rs) and ws != rs:
+        ws, rs = set(store_k["T"]), set(load_k["T"])
+        if (ws - {""} or rs - {""}) and not (ws & rs):
             problems.append("store applies %s but load applies %s (different codec family)" % (sorted(ws), sorted(rs)))
     ok = not problems
     ctx.obligation(rule, wfn.id, label, ok,
